@@ -4,7 +4,8 @@ from common import *  # noqa: F401,F403
 RULE = ("random pairs of curves on the same interval: equal and different degrees (0..3), disjoint / shared interior knots with different "
         "multiplicities, polynomial and rational operands, scalar- and vector-valued points; operators + - * @ /, unary minus, and the "
         "scalar / matrix variants s+A, A+s, s-A, A-s, s*A, A*s, A/s, s/A, M@A, A@M (python numbers, Fractions, numpy arrays); operands on "
-        "different intervals.  Non-trivial: some operand has an interior knot or degree >= 2; distinct = distinct (A, B, operator).")
+        "different intervals.  Non-trivial: some operand has an interior knot or degree >= 2; distinct = distinct (A, B, operator)."
+        " Also: rational operands with equal weight tuples on different knot vectors, float twin first.")
 EXPLANATION = ("L3: for the implementation's result C the relation C = A op B is decided on the span polynomials of A, B and C (cross-multiplied "
                "for rational operands), i.e. for every u at once (`rf.rel`, `rf.map`); L2: the result is compared with the model's result as a "
                "function (`rf.eq`), and as a state where the property fixes the representation (sum on the union vector).")
